@@ -66,7 +66,7 @@ CLAIMS = {
          "c15_class (good_names, decodable, OneOf-free, member names snake-stable, no Null-typed member, no empty object) deserializes into the generated root type and re-serializes to an approx-equal document (kinds; explicit nulls for absent optional members). Six `_refuted` theorems exhibit the classes "
          "outside it (externally tagged enums, missing rename, Null-typed member, dropped root Option, empty object = unit struct, duplicate member). The serde model is an external library's behaviour: validated in the thorough tier by compiling and RUNNING the generated code on the sources and on foreign documents "
          "(3089 pairs, model = real outcome incl. re-serialized document); that run found the unit-struct class.", "6/C15"),
- "C16": ("Theorems (Properties/C16.v): out_path = macro_path for dot-free collection names (all directories not ending in '/'), refuted for dotted names (F14) and proved for ALL non-absolute names for the repaired path (C16_paths_agree_after_F14); equal shapes get equal names, injectivity refuted (KF4); a successful compile_json_m writes exactly one file = header ++ returned text at out_path; "
+ "C16": ("Theorems (Properties/C16.v): out_path = macro_path for EVERY non-absolute collection name, dots included (C16_paths_agree, the code after fix F14; the dotted-name defect of the old path is kept as C16_pre_F14_dotted_refuted); equal shapes get equal names, injectivity refuted (KF4) and the colliding class characterised (C16_name_collision_class: equal constructors, flags and member / variant / element types in order give equal names, member names never enter); a successful compile_json_m writes exactly one file = header ++ returned text at out_path; "
          "read / inference errors and panics write nothing; empty source lists yield an error - for any inference function. Correspondence: shape_name / shape_representation / render hooks, convert_case Snake/Pascal and CRC-32 {:X} on ~50k strings, compile_json (real files, OUT_DIR set/unset/dotted/spaced) against compile_json_m incl. stdout lines; "
          "oracle: bytes twice in one process and in two processes, single file at the macro's path, no file on error, name collision search.", "6/C16"),
 }
